@@ -29,6 +29,9 @@ def cases(tier, seed):
     # use the same channel names
     for k in range(40 if tier == 'quick' else 1000):
         yield {'stratum': 'runs-with-equal-channel-names', 'index': k, 'kind': 'runs'}
+    # one logical file brings its data along (add_channel(data=...)), the other one gets them through write(data=dict)
+    for k in range(16 if tier == 'quick' else 300):
+        yield {'stratum': 'data-dict-for-one-logical-file', 'index': k, 'kind': 'data-dict'}
 
 
 def interleave(spec, r):
@@ -116,6 +119,31 @@ def run_case(case):
             bump('frames-different-rows')
         bump('runs-with-equal-channel-names')
         cls = 'runs'
+    elif case['kind'] == 'data-dict':
+        sp = gen.base_spec(r.choice([128, 8192]), lfs=[{'fh_id': 'LF-INLINE'}, {'fh_id': 'LF-DICT'}])
+        same_names = case['index'] % 2 == 0       # (odd cases: explicit, distinct data set names -- the control)
+        if r.random() < 0.5:
+            sp['lfs'].reverse()
+        inline_lf = next(i for i, l in enumerate(sp['lfs']) if l['fh_id'] == 'LF-INLINE')
+        for lf in range(2):
+            n = r.choice([3, 4, 7])
+            sp['ops'].append(dict(gen.origin_op(f'ORIGIN-{lf}', fsn=5 + lf), lf=lf, set_name=f'S{lf}'))
+            idx = []
+            for c, nm in enumerate(['DEPTH', 'GR']):
+                op = gen.channel_op(nm, '<f8' if c == 0 else r.choice(['<f4', '<u2']), (n,), fill={'kind': 'pos', 'tag': 10 * (lf + 1) + c},
+                                    lf=lf, set_name=f'S{lf}')
+                if lf == inline_lf:
+                    op['force_inline'] = True
+                elif not same_names:
+                    op['dataset_name'] = f'dict_{nm}'
+                sp['ops'].append(op)
+                idx.append(len(sp['ops']) - 1)
+            sp['ops'].append(dict(gen.frame_op(f'FRAME-{lf}', idx, lf=lf), set_name=f'S{lf}'))
+        sp['write'] = {'output_chunk_size': 2 ** 16, 'source': 'dict', 'input_chunk_size': r.choice([None, 2])}
+        nlf = 2
+        bump('data-dict-for-one-logical-file')
+        bump('data-dict-' + ('same-dataset-names' if same_names else 'distinct-dataset-names'))
+        cls = 'data-dict:' + ('same' if same_names else 'distinct')
     elif case['kind'] == 'frames':
         nfr = r.choice([2, 3, 4])
         sp = gen.base_spec(r.choice([128, 8192]))
@@ -218,7 +246,7 @@ def run_case(case):
         # the number of records of a file with several logical files (one header each, one record per set)
         vio.append({'prop': PROP, 'kind': 'multi-lf-write-aborted', 'mech': 'write-aborted:record-count',
                     'detail': f'{nlf} logical files: write raised {run.wout[1]}: {run.wout[2][:120]}'})
-    if run.data is None and (case['kind'] in ('frames', 'runs') or 'not a no-format object of this logical file' in run.wout[2]
+    if run.data is None and (case['kind'] in ('frames', 'runs', 'data-dict') or 'not a no-format object of this logical file' in run.wout[2]
                              or 'has not been added to the same logical file' in run.wout[2]
                              or 'is not that of any origin of the logical file' in run.wout[2]):
         # these specifications are valid by construction (and none of this workload hands an object to another logical
@@ -247,6 +275,9 @@ def run_case(case):
             mech = f'{v.prop}:{v.mech}'
             if shared:
                 mech = 'shared-set:' + mech
+            if cls == 'data-dict:same' and v.prop == 'C03':
+                # rows of the logical file that brought its own data were replaced by the equally named entries of the dict
+                mech = 'data-dict-names-dataset-of-other-logical-file:' + mech
             vio.append({'prop': PROP, 'kind': 'isolation:' + v.kind, 'mech': mech, 'detail': v.detail})
     # foreign content: object names carry the prefix of the logical file they were added to
     if run.lfs is not None and nlf > 1:
@@ -259,6 +290,8 @@ def run_case(case):
                             'detail': f'logical file #{li} opens with header {got.values if got else None!r}, expected {want!r}'})
             for s in dl.sets[1:]:
                 for o in s.objects:
+                    if cls.startswith('data-dict'):
+                        continue        # (this stratum uses the SAME names in both logical files, on purpose)
                     if not o.name[2].startswith(f'L{li}-'):
                         vio.append({'prop': PROP, 'kind': 'foreign-object', 'mech': ('shared-set:' if shared else '') + 'foreign-object',
                                     'detail': f'logical file #{li}, set {s.type}/{s.name}: object {o.name} was added to another logical file'})
